@@ -22,7 +22,11 @@ type instance struct {
 }
 
 func startNats(token string) (*natsserver.Server, string, error) {
-	opts := &natsserver.Options{Host: "127.0.0.1", Port: natsserver.RANDOM_PORT, NoSigs: true, NoLog: true,
+	return startNatsPort(token, natsserver.RANDOM_PORT)
+}
+
+func startNatsPort(token string, port int) (*natsserver.Server, string, error) {
+	opts := &natsserver.Options{Host: "127.0.0.1", Port: port, NoSigs: true, NoLog: true,
 		Authorization: token, MaxPayload: 8 * 1024 * 1024}
 	ns, err := natsserver.NewServer(opts)
 	if err != nil {
@@ -36,7 +40,12 @@ func startNats(token string) (*natsserver.Server, string, error) {
 }
 
 func startInstance(dir, rootID string) (*instance, error) {
-	ns, url, err := startNats("")
+	return startInstancePort(dir, rootID, natsserver.RANDOM_PORT)
+}
+
+// startInstancePort: the same on a given port (an instance that is restarted keeps its address)
+func startInstancePort(dir, rootID string, port int) (*instance, error) {
+	ns, url, err := startNatsPort("", port)
 	if err != nil {
 		return nil, err
 	}
